@@ -65,6 +65,40 @@ S2_BY_REFERENCE = {
 }
 
 
+def _returns_only_admitted_literals(repo, mod, fn, p):
+    """every `return <p>` of fn is reached only under a membership test of p in a collection of literal strings / numbers"""
+    import rules_domain
+    parents = {}
+    for x in ast.walk(fn):
+        for ch in ast.iter_child_nodes(x):
+            parents[id(ch)] = x
+
+    def admitted(test, positive):
+        t = test
+        while isinstance(t, ast.UnaryOp) and isinstance(t.op, ast.Not):
+            t, positive = t.operand, not positive
+        if isinstance(t, ast.Compare) and len(t.ops) == 1 and isinstance(t.left, ast.Name) and t.left.id == p and isinstance(t.ops[0], (ast.In, ast.NotIn)):
+            members = rules_domain.literal_members(t.comparators[0], repo, mod)
+            return members is not None and all(isinstance(v, (str, int, float, bool, type(None))) for v in members) and (isinstance(t.ops[0], ast.In) == positive)
+        return False
+    rets = [r for r in ast.walk(fn) if isinstance(r, ast.Return) and isinstance(r.value, ast.Name) and r.value.id == p]
+    if not rets or any(isinstance(x, ast.Name) and x.id == p and isinstance(x.ctx, ast.Store) for x in ast.walk(fn)):
+        return False
+    for r in rets:
+        ok, ch, q = False, r, parents.get(id(r))
+        while q is not None and not ok:
+            if isinstance(q, ast.If) and ch is not q.test:
+                ok = admitted(q.test, any(ch is b for b in q.body))
+            ch, q = q, parents.get(id(q))
+        if not ok:
+            # `if p not in S: raise` before the return, in the same block
+            blk = next((getattr(o, f) for o in ast.walk(fn) for f in ("body", "orelse") if isinstance(getattr(o, f, None), list) and r in getattr(o, f)), [])
+            ok = any(isinstance(st, ast.If) and admitted(st.test, False) and st.body and isinstance(st.body[-1], ast.Raise) for st in blk[:blk.index(r)] if r in blk)
+        if not ok:
+            return False
+    return True
+
+
 def validators_fresh(repo, res, rule="V1", only=None):
     ic = repo.mod("magpylib._src.input_checks")
     nv = 0
@@ -98,6 +132,8 @@ def validators_fresh(repo, res, rule="V1", only=None):
         # orientation validators hand back the scipy Rotation they were given (immutable value object) next to fresh quaternions
         if fname == "check_format_input_orientation":
             leak = set()
+        if leak and _returns_only_admitted_literals(repo, ic, fn, params[0]):
+            leak = set()     # the input is returned only where it was found among literal strings / numbers: an immutable value, nothing to copy
         ok = (not leak or objs_by_ref) and not mut
         res.ob(f"{rule}:{fname}", ok, {"rule": rule, "validator": fname, "returns": repr(out), "aliases_input": sorted(leak), "mutates_input": [x[4] for x in mut]})
         if not ok:
@@ -180,12 +216,30 @@ def attr_shape_fixed(repo, cname, attr):
     c, fn = repo.find_method(cname, attr, "setter")
     if fn is None:
         return False
+    def fixed_by(call, bound):
+        kws = {k.arg: k.value for k in call.keywords}
+        for k_ in ("dims", "length"):
+            if isinstance(kws.get(k_), ast.Name) and kws[k_].id in bound:
+                kws[k_] = bound[kws[k_].id]        # a parameter of a shared validator, bound to a literal at the setter's call
+        try:
+            dims = ast.literal_eval(kws["dims"]) if "dims" in kws and isinstance(kws["dims"], (ast.Tuple, ast.Constant)) else None
+        except ValueError:
+            dims = None
+        return dims == (1,) or ("length" in kws and isinstance(kws["length"], ast.Constant) and kws["length"].value is not None)
     for call in ast.walk(fn):
         if isinstance(call, ast.Call) and getattr(call.func, "id", "") == "check_format_input_vector":
-            kws = {k.arg: k.value for k in call.keywords}
-            dims = ast.literal_eval(kws["dims"]) if "dims" in kws and isinstance(kws["dims"], (ast.Tuple, ast.Constant)) else None
-            if dims == (1,) or ("length" in kws and isinstance(kws["length"], ast.Constant) and kws["length"].value is not None):
+            if fixed_by(call, {}):
                 return True
+        elif isinstance(call, ast.Call) and isinstance(call.func, ast.Name):
+            # one level of delegation: a validator of the package that forwards to check_format_input_vector
+            r = repo.resolve_name(c.mod, call.func.id)
+            if r and r[0] == "func":
+                ps = [a.arg for a in r[2].args.args]
+                bound = {p_: a_ for p_, a_ in zip(ps, call.args) if isinstance(a_, ast.Constant)}
+                bound.update({k.arg: k.value for k in call.keywords if k.arg and isinstance(k.value, ast.Constant)})
+                for inner in ast.walk(r[2]):
+                    if isinstance(inner, ast.Call) and getattr(inner.func, "id", "") == "check_format_input_vector" and fixed_by(inner, bound):
+                        return True
     return False
 
 
